@@ -1,5 +1,5 @@
 rc_target("c07_tasks", flavour="asan")
-plan("C07", [T("c07_tasks", 50000, 400000)], min_nt=12000,
+plan("C07", [T("c07_tasks", 50000, 400000), TT(GCC("c07_tasks"), 8000)], min_nt=12000,
      rule="command programs with scripted re-entrant task functions against a pending-table model; non-trivial = re-entrant schedule and in-batch cancel both occur",
      technique="model-based property testing (rapidcheck): command programs (schedule_now / schedule_future / cancel / run_all / has_tasks / "
                "clean_up+re-init) whose task functions execute generated scripts (schedule others, re-schedule themselves, cancel pending tasks "
